@@ -332,7 +332,34 @@ func checkC04(cx *Ctx, r *Report) {
 			r.Fail("R-SIGNER", sg.key, "", "anchor function not found")
 			continue
 		}
-		isCrypto := func(c ssa.CallInstruction) bool {
+		helperOK := map[*ssa.Function]int{} // 0 unknown, 1 busy, 2 ok, 3 no
+		var isCrypto func(c ssa.CallInstruction) bool
+		isCrypto = func(c ssa.CallInstruction) bool {
+			// a helper of the module that obeys the discipline itself (`signRedirectQuery(cert, key, alg, query)`)
+			if f := calleeOf(c); f != nil && f.Blocks != nil && f.Pkg != nil && isModulePath(f.Pkg.Pkg.Path()) && !isMockPath(f.Pkg.Pkg.Path()) {
+				direct := false
+				for _, want := range sg.crypto {
+					if w.FuncKey(f) == want || w.FuncKey(throughDelegation(f)) == want {
+						direct = true
+					}
+				}
+				if !direct {
+					switch helperOK[f] {
+					case 2:
+						return true
+					case 1, 3:
+						return false
+					}
+					helperOK[f] = 1
+					st, _, _ := cx.verifierEval(f, isCrypto)
+					if st == "ok" {
+						helperOK[f] = 2
+						return true
+					}
+					helperOK[f] = 3
+					return false
+				}
+			}
 			n := calleeName(c)
 			if f := calleeOf(c); f != nil && f.Pkg != nil && isModulePath(f.Pkg.Pkg.Path()) {
 				n = w.FuncKey(throughDelegation(f))
